@@ -309,15 +309,15 @@ where
 #[packrat_parser]
 pub(crate) fn white_space(s: Span) -> IResult<Span, WhiteSpace> {
     if in_directive() {
-        map(multispace1, |x: Span| {
+        map(take_while1(is_multispace), |x: Span| {
             WhiteSpace::Space(Box::new(into_locate(x)))
         })(s)
     } else {
         alt((
-            map(space1, |x: Span| {
+            map(take_while1(is_space), |x: Span| {
                 WhiteSpace::Space(Box::new(into_locate(x)))
             }),
-            map(multispace1, |x: Span| {
+            map(take_while1(is_multispace), |x: Span| {
                 WhiteSpace::Newline(Box::new(into_locate(x)))
             }),
             map(preceded(peek(char('/')), comment), |x| {
@@ -329,6 +329,15 @@ pub(crate) fn white_space(s: Span) -> IResult<Span, WhiteSpace> {
             ),
         ))(s)
     }
+}
+
+// IEEE1800-2017 Clause 5.3: white space contains spaces, tabs, newlines and formfeeds
+fn is_space(c: char) -> bool {
+    c == ' ' || c == '\t' || c == '\x0c'
+}
+
+fn is_multispace(c: char) -> bool {
+    is_space(c) || c == '\r' || c == '\n'
 }
 
 thread_local!(
